@@ -55,7 +55,9 @@ class RelayPool(Relay):
         self.queue = BlockingDeque()
 
     def kill(self):
-        for client in self.pool:
+        # Killing a client blocks, and a client that ends removes itself from
+        # the pool: iterate over a snapshot.
+        for client in list(self.pool):
             client.kill()
 
     def _remove_client(self, client):
